@@ -108,7 +108,7 @@ theorem read_spec (c : Chunk) (k : Nat) (h : c.Inv) (c' : Chunk) (got : Bytes) (
   · rename_i hc
     simp only [Prod.mk.injEq] at hr
     obtain ⟨rfl, rfl, rfl⟩ := hr
-    have hemp : c.len ≤ c.rpos := by simpa [isEmpty] using hc.1
+    have hemp : c.len ≤ c.rpos := by simpa [isEmpty] using hc
     have hun : c.unread = [] := List.length_eq_zero_iff.mp (by omega)
     refine ⟨⟨by simp [reset], by simp [reset], ?_, nl⟩, rfl, by simp [hun], ?_⟩
     · intro hp; simp only [reset] at hp ⊢; omega
